@@ -15,7 +15,8 @@ get_by_path}.go at the granularity the locks give:
       check-then-create of `WriteFile` and `Writer`;
     - `File` data operations under `dataMU` (`getData`, `setData`, `copyFile`), and a stream handle
       (`open … close`) that holds `dataMU` from `NewFileHandler` to `Close`;
-    - `readLen` = the unlocked `len(lastDir.nodes)` of `Remove`;
+    - `readLen` = `lastDir.Size()` of `Remove`: `len(nodes)` under the directory's `mu.RLock` (since
+      42ebac9; before, an unlocked read — atomic in the model either way);
 * a thread runs a list of `Op`s; each op is decomposed into these acts by a program counter `Pc`
   (`actOf` = which critical section comes next, `resume` = the Go control flow after it);
 * `applyAct … = none` means *blocked* (the lock is held by someone else); an ill-typed act (wrong
@@ -26,12 +27,13 @@ get_by_path}.go at the granularity the locks give:
   `writeFileUnderDir`– pre-c2706af `WriteFile`: `setData` while holding the directory lock;
   `copyDirHoldsMu`   – `copyDir` keeps the source directory's `mu.RLock` while it copies children.
 -/
-import Goat.Base.Bytes
+import Goat.Base.Path
 import Goat.Base.LTS
 
 namespace Goat.MemFSConc
 
-abbrev Name := String
+/-- node names are byte strings, as in the sequential model (`Goat.Path.Name`) -/
+abbrev Name := Goat.Path.Name
 abbrev Data := Bytes
 abbrev Oid := Nat
 abbrev Tid := Nat
@@ -113,7 +115,7 @@ inductive Act where
   | addNewFile (d : Oid) (n : Name) (v : Data)      -- NewFile + addNode         (mu.W)
   | removeNode (d : Oid) (n : Name)                 -- removeNodeByName          (mu.W)
   | snapshot (d : Oid) (hold : Bool)                -- getNodes; hold = keep mu.RLock (copyDir variant)
-  | readLen (d : Oid)                               -- unlocked len(d.nodes)
+  | readLen (d : Oid)                               -- Dir.Size(): len(d.nodes)   (mu.R)
   | outerLock (d : Oid)
   | outerUnlock (d : Oid)
   | getData (f : Oid)                               -- dataMU.R
